@@ -116,7 +116,8 @@ int main() { for (int n = 1; n <= 96; ++n) { arr_real xr(n); arr_cmplx xc(n); fo
 
 @adapter(r'_tukeywin|window::(tukey|hann|hamming|blackman|blackmanharris|cosine|gauss|kaiser)|_sym_window|_(hann|hamming|blackman|blackmanharris|cosine|gauss)win')
 def window_closed_forms(o):
-    """C11: every window against its closed form, symmetry, range and the periodic variant, lengths 3..64"""
+    """C11: every window (hann, hamming, blackman, blackmanharris, cosine, gauss, tukey) against its closed form, symmetry, range and the
+    periodic variant, lengths 3..64"""
     return HDR + '''
 using namespace dsplib::window;
 static int chk(const char* nm, const arr_real& w, const arr_real& wp, int n, double (*f)(int, int)) {
@@ -131,6 +132,7 @@ int main() { for (int n = 3; n <= 64; ++n) {
     if (chk("blackman", blackman(n), blackman(n, false), n, [](int N, int i){ return 0.42 - 0.5 * std::cos(2 * pi * i / (N - 1)) + 0.08 * std::cos(4 * pi * i / (N - 1)); })) return 1;
     if (chk("blackmanharris", blackmanharris(n), blackmanharris(n, false), n, [](int N, int i){ return 0.35875 - 0.48829 * std::cos(2 * pi * i / (N - 1)) + 0.14128 * std::cos(4 * pi * i / (N - 1)) - 0.01168 * std::cos(6 * pi * i / (N - 1)); })) return 1;
     if (chk("cosine", cosine(n), cosine(n, false), n, [](int N, int i){ return std::sin(pi / N * (i + 0.5)); })) return 1;
+    if (chk("gauss", gauss(n, 2.5), gauss(n, 2.5, false), n, [](int N, int i){ double h = (N - 1) / 2.0, t = 2.5 * (i - h) / h; return std::exp(-0.5 * t * t); })) return 1;
     for (double r : {0.0, 0.1, 0.25, 0.5, 0.77, 1.0}) { arr_real w = tukey(n, r); if (w.size() != n) return 1;
       for (int i = 0; i < n; ++i) { int d = std::min(i, n - 1 - i); double x = double(d) / (n - 1), per = r / 2;
         double e = (r <= 0) ? 1 : (r >= 1) ? 0.5 - 0.5 * std::cos(2 * pi * d / (n - 1)) : (x < per ? (1 + std::cos(pi / per * (x - per))) / 2 : 1);
